@@ -273,7 +273,9 @@ Example late_map_regression :
                  SField (lit "n") (TAtom ALong) true []]).
 Proof. vm_compute. split; reflexivity. Qed.
 
-(* ---- Rows are matched to an explicit schema BY FIELD NAME, whatever order the Row lists its fields in
+(* ---- Rows are matched to an explicit schema BY FIELD NAME, whatever order the Row lists its fields in -- and
+   also when the Row has MORE fields than the schema (hypothesis: duplicate-free own names among which every name
+   of the schema occurs; since fix 9c12b3b) --
    (a Row built from keyword arguments sorts them): a Row that holds under every field name the value of a valid row is verified
    and createDataFrame(rows, schema).collect() gives the values back under the right names
    (StructType._match_fields_by_name; full since the repair of the finding
@@ -281,7 +283,7 @@ Proof. vm_compute. split; reflexivity. Qed.
 Theorem C19_create_with_schema_by_name : forall local fs vals names' vals',
   inferable (TStruct fs) -> is_row_of (TStruct fs) (PRow (map sf_name fs) vals) ->
   strs_eqb names' (map sf_name fs) = false -> nodupb names' = true ->
-  strs_eqb (sort_strs names') (sort_strs (map sf_name fs)) = true ->
+  forallb (fun n => str_mem n names') (map sf_name fs) = true ->
   mapM (row_get names' vals') (map sf_name fs) = Ok vals ->
   verify (TStruct fs) true (PRow names' vals') = Ok tt /\
   create_with_schema local (TStruct fs) [PRow names' vals'] = Ok [tz_local local (PRow (map sf_name fs) vals)].
@@ -303,3 +305,15 @@ Example by_name_regression_rows :
     [PRow [lit "a"; lit "b"] [PInt 1; PDatetime 5 None]]
   = Ok [PRow [lit "b"; lit "a"] [PDatetime 5 None; PInt 1]].
 Proof. exact by_name_regression. Qed.
+
+(* a Row with more fields than the schema keeps only the schema's fields; a schema naming a field twice takes the
+   value twice; a Row whose own names contain duplicates is left as it is *)
+Example extra_fields_regression :
+  create_with_schema 0 (TStruct [SField (lit "a") (TAtom ALong) true []])
+    [PRow [lit "a"; lit "b"] [PInt 1; PInt 2]] = Ok [PRow [lit "a"] [PInt 1]] /\
+  to_internal 0 (TStruct [SField (lit "a") (TAtom ALong) true []; SField (lit "a") (TAtom ALong) true [];
+                          SField (lit "b") (TAtom ALong) true []])
+    (PRow [lit "a"; lit "b"] [PInt 1; PInt 2]) = Ok (PRow [lit "a"; lit "a"; lit "b"] [PInt 1; PInt 1; PInt 2]) /\
+  to_internal 0 (TStruct [SField (lit "a") (TAtom ALong) true []])
+    (PRow [lit "a"; lit "a"] [PInt 1; PInt 2]) = Ok (PRow [lit "a"; lit "a"] [PInt 1; PInt 2]).
+Proof. vm_compute. repeat split. Qed.
